@@ -3,7 +3,7 @@ import re
 from collections import defaultdict
 
 from ..check import Result
-from ..core import place_local, place_projs, proj_fields, op_place
+from ..core import place_local, place_projs, proj_fields, op_place, op_local
 from ..reviewed import REVIEWED
 
 AST = "rustpython_parser::rustpython_ast::"
@@ -406,4 +406,217 @@ def r6d_all_decorators(ctx):
                 r.ok()
     r.floor("usage extractors", len(extractors), 3)
     r.floor("extractor applications", n, 4)
+    return r
+
+
+# ------------------------------------------------------------------------------------------ R6e / R6f: order and early returns
+def _field_reads(g):
+    """[(bb, stmt index, owner adt, field)] of AST field projections read in g (statements only; terminator operands count at
+    the end of their block)"""
+    out = []
+    for bb, b in enumerate(g.blocks):
+        for si, s in enumerate(b["s"]):
+            if s[0] != "=":
+                continue
+            acc = set()
+            _collect(s[1], acc)
+            _collect_rv(s[2], acc)
+            for o, n in acc:
+                out.append((bb, si, o, n))
+        t = b["t"]
+        if t[0] == "call":
+            acc = set()
+            for a in t[1]["args"]:
+                p = op_place(a)
+                if p is not None:
+                    _collect(p, acc)
+            for o, n in acc:
+                out.append((bb, len(b["s"]), o, n))
+    return out
+
+
+def r6e_visit_order(ctx):
+    r = Result("R6e", "the visitor that reports the FIRST yield (it returns a line, not a bool) visits the statement lists of one "
+                      "node in source order -- the declaration order of the fields in the AST node (`body`, `handlers`, `orelse`, "
+                      "`finalbody`): a list read earlier in the function than a list declared before it is searched first, and a "
+                      "yield in it wins over an earlier yield in the source")
+    crate = ctx.bin
+    from .r3d import _closures_in
+    uni = stmt_list_universe(crate)
+    order = {}
+    for p, a in ast_adts(crate).items():
+        if a["kind"] == "struct":
+            for i, f in enumerate(a["variants"][0]["fields"]):
+                order[(p, f["name"])] = i
+    ys = [f for f in yield_visitors(ctx) if "Option" in f.ret]
+    if not ys:
+        r.anchor_missing("first-yield visitor", "no yield visitor returning an Option")
+        return r
+    n = 0
+    for v in ys:
+        fam_roots = {crate.fns[x].root for x in _scc_of(ctx.callgraph(), v.id) if x in crate.fns}
+        for root in sorted(fam_roots):
+            F = crate.fns.get(root)
+            if F is None:
+                continue
+            closures = _closures_in(crate, F)
+
+            def lift(g, bb, si, depth=0):
+                """position of a read in terms of F's own blocks (a closure's reads happen where the closure is built)"""
+                if g is F:
+                    return (bb, si)
+                if g.id not in closures or depth > 5:
+                    return None
+                host, _ops = closures[g.id]
+                for hb, hsi, pl, rv, sp in host.assigns():
+                    if rv[0] == "agg" and rv[1][0] in ("closure", "coroutine") and rv[1][1] == g.id:
+                        return lift(host, hb, hsi, depth + 1)
+                return None
+            reads = defaultdict(list)
+            for g in [F] + [crate.fns[c] for c in closures]:
+                for bb, si, o, fld in _field_reads(g):
+                    if (o, fld) in uni:
+                        pos = lift(g, bb, si)
+                        if pos is not None:
+                            reads[(o, fld)].append(pos)
+            dom = F.dominators()
+
+            def precedes(x, y):
+                return (x[0] == y[0] and x[1] < y[1]) or (x[0] != y[0] and x[0] in dom.get(y[0], set()))
+            by_node = defaultdict(list)
+            for (o, fld) in reads:
+                by_node[o].append(fld)
+            for o, flds in sorted(by_node.items()):
+                flds = sorted(flds, key=lambda x: order.get((o, x), 0))
+                for i in range(len(flds)):
+                    for j in range(i + 1, len(flds)):
+                        a_, b_ = flds[i], flds[j]
+                        n += 1
+                        fa = min(reads[(o, a_)])
+                        bad = [pb for pb in reads[(o, b_)] if any(precedes(pb, pa) for pa in reads[(o, a_)])
+                               and not any(precedes(pa, pb) for pa in reads[(o, a_)])]
+                        key = "R6e|%s|%s.%s before %s" % (root, o.split("::")[-1], b_, a_)
+                        if bad:
+                            r.violate(key, "%s reads %s.%s before %s.%s: a yield in the later block is reported although an earlier "
+                                           "one exists" % (root.split("::")[-1], o.split("::")[-1], b_, o.split("::")[-1], a_))
+                        else:
+                            r.ok(sample={"node": o.split("::")[-1], "order": "%s then %s" % (a_, b_)} if len(r.samples) < 4 else None)
+    r.floor("ordered pairs of statement lists", n, 5)
+    return r
+
+
+def r6f_any_visitor_returns_true_only(ctx):
+    r = Result("R6f", "in the visitor that answers `does the body contain a yield` (it returns bool) every return from inside the "
+                      "loop over the statements is the constant `true`: a `return <some other bool>` for one statement kind ends the "
+                      "search before the remaining statements were looked at")
+    crate = ctx.bin
+    from .r1e import natural_loops
+    ys = [f for f in yield_visitors(ctx) if f.ret == "bool"]
+    if not ys:
+        r.anchor_missing("contains-yield visitor", "no yield visitor returning bool")
+        return r
+    n = 0
+    for v in ys:
+        fam_roots = {crate.fns[x].root for x in _scc_of(ctx.callgraph(), v.id) if x in crate.fns}
+        for root in sorted(fam_roots):
+            F = crate.fns.get(root)
+            if F is None or F.ret != "bool":
+                continue
+            from .r1e import NEXT_LIKE
+            for h, latches, body in natural_loops(F):
+                nxt = [b0 for b0 in body if F.blocks[b0]["t"][0] == "call" and NEXT_LIKE.search(F.blocks[b0]["t"][1].get("fn") or "")
+                       and F.blocks[b0]["t"][1]["span"][4].startswith("desugar:ForLoop")]
+                if not nxt:
+                    continue
+                # the exit taken when the iterator is exhausted
+                done = set()
+                tgt = F.blocks[nxt[0]]["t"][1]["target"]
+                if tgt is not None and F.blocks[tgt]["t"][0] == "switch":
+                    done = {x for x in F.succs(tgt) if x not in body}
+                # blocks on the other ways out of the loop
+                early = set()
+                st = [s2 for b0 in body for s2 in F.succs(b0) if s2 not in body and s2 not in done]
+                while st:
+                    x = st.pop()
+                    if x in early or x in body:
+                        continue
+                    early.add(x)
+                    st.extend(F.succs(x))
+                # after the regular end of the loop anything may be returned; remove what is reachable from there only
+                after = set()
+                st = list(done)
+                while st:
+                    x = st.pop()
+                    if x in after or x in body:
+                        continue
+                    after.add(x)
+                    st.extend(F.succs(x))
+                region = set(body) | (early - after)
+                key = "R6f|%s" % root
+                for bb in sorted(region):
+                    for s_ in F.blocks[bb]["s"]:
+                        if s_[0] == "=" and place_local(s_[1]) == 0:
+                            n += 1
+                            rv = s_[2]
+                            if rv[0] == "use" and isinstance(rv[1], list) and rv[1][0] == "c" and str(rv[1][1].get("v")).lower() in ("true", "1"):
+                                r.ok()
+                            else:
+                                r.violate(key, "%s returns a non-constant result from inside its statement loop at %s: the search "
+                                               "stops at the first statement of that kind" % (root.split("::")[-1], crate.span_str(s_[3])))
+                    t = F.blocks[bb]["t"]
+                    if t[0] == "call" and place_local(t[1]["dest"]) == 0:
+                        n += 1
+                        r.violate(key, "%s returns the result of a call from inside its statement loop at %s: the search stops at "
+                                       "the first statement of that kind" % (root.split("::")[-1], crate.span_str(t[1]["span"])))
+    r.counts["returns_inside_loops"] = n
+    return r
+
+
+def r6g_scope_seeds_after_collector(ctx):
+    r = Result("R6g", "in the function that prepares the scope map of a body scan (it hands a `HashMap<String, usize>` to the "
+                      "local-variable collector and also inserts names with the constant line 0 = `in scope everywhere`: imported "
+                      "and module-level names) every such constant-0 insert comes after the collector ran (is dominated by the "
+                      "collector call): inserted first, a later local rebinding overwrites the 0 with its own line and a use before "
+                      "that line is reported as an undeclared fixture")
+    crate = ctx.bin
+    from .r7 import _root_local
+    from ..core import op_const
+    collectors = {f.id for k, f in _visitor_by_role(ctx).items() if k.startswith("locals:")}
+    if not collectors:
+        r.anchor_missing("local-variable collector", "not found by role")
+        return r
+    n = 0
+    for f in crate.real_fns():
+        calls = [(bb, c) for bb, c in f.calls() if c.get("res") in collectors and f.id not in collectors]
+        if not calls:
+            continue
+        dom = f.dominators()
+        for cb, cc in calls:
+            maps = {_root_local(f, a) for a in cc["args"] if op_local(a) is not None and "HashMap<std::string::String, usize" in f.local_ty(op_local(a))}
+            for m in maps:
+                n += 1
+                key = "R6g|%s" % f.id
+                # the map starts empty ...
+                made = [d for d in f.whole_defs(m) if d[0] in ("call", "assign")]
+                empty = all(d[0] == "call" and re.search(r"HashMap::<K, V(, S)?>::(new|default|with_capacity)$|Default>?::default$", d[2].get("res") or d[2].get("fn") or "")
+                            for d in made) and made
+                if not empty:
+                    r.violate(key, "%s hands the local-variable collector a scope map that is not created empty: names already in it "
+                                   "(always-in-scope seeds) are overwritten by later local rebindings" % f.id.split("::")[-1])
+                    continue
+                # ... and every other write into it comes after the collector ran
+                early = []
+                for bb, c in f.calls():
+                    if bb == cb or not c["args"] or _root_local(f, c["args"][0]) != m:
+                        continue
+                    if not re.search(r"HashMap::<K, V, S(, A)?>::(insert|entry|extend|remove|retain|clear|get_mut)$|Extend<.*>>::extend$", c.get("res") or ""):
+                        continue
+                    if cb not in dom.get(bb, set()):
+                        early.append(crate.span_str(c["span"]))
+                if early:
+                    r.violate(key, "%s writes into the scope map at %s before the local-variable collector runs: an always-in-scope "
+                                   "name inserted there is overwritten by a later local rebinding" % (f.id.split("::")[-1], sorted(set(early))[:2]))
+                else:
+                    r.ok(sample={"in": f.id.split("::")[-1], "scope_map": "created empty, seeded after the collector"})
+    r.floor("scope maps handed to the local-variable collector", n, 1)
     return r
